@@ -232,8 +232,9 @@ Qed.
 Lemma find_last_none P l : (forall i, i <= length l -> P (skipn i l) = false) -> find_last P l = None.
 Proof.
   induction l as [|x t IH]; intros H; cbn.
-  - rewrite (H 0 (le_n _)). reflexivity.
-  - rewrite IH. + rewrite (H 0 (Nat.le_0_l _)). reflexivity.
+  - pose proof (H 0 (le_n _)) as H0. cbn in H0. rewrite H0. reflexivity.
+  - rewrite IH.
+    + pose proof (H 0 (Nat.le_0_l _)) as H0. cbn in H0. rewrite H0. reflexivity.
     + intros i Hi. apply (H (S i)). cbn. lia.
 Qed.
 
